@@ -119,10 +119,10 @@ CLAIMS = {
         design="6/C12"),
     "C13": dict(
         text="Theorems (exact rational arithmetic): the documented factors; round trip = identity; composition; conversion commutes with "
-             "sums. Obligation regenerated every run: every conversion node of every dumped graph reads the same-named column of another "
+             "sums; every factor is positive, so conversions are injective order isomorphisms preserving sign and zero. Obligation regenerated every run: every conversion node of every dumped graph reads the same-named column of another "
              "unit with exactly the documented factor (name grammar parsed in Gallina, soundness proved). Engine runs: all unit variants "
              "of flows requested together, inputs supplied in another unit, group sums.",
-        technique="Coq proof (TimeConv.v) + reflective check of the regenerated loader graph + differential engine runs",
+        technique="Coq proof (TimeConv.v, TimeConvOrder.v, ConvSum.v) + reflective check of the regenerated loader graph + differential engine runs",
         design="6/C13"),
     "C15": dict(
         text="Theorem (any column type, rule base, population): along an evaluation the set of columns constant on the classes of an "
